@@ -110,6 +110,9 @@ def run_case(spec):
     elif out.exc_type == 'ValueError' and 'bound is not' in msg and degenerate_cost:
       counters['degenerate_cost_raised'] += 1
       return done(False)
+    elif ref is not None and (ref.zero_resid or ref.degenerate):
+      counters['zero_variance_inputs'] += 1
+      return done(False)
     elif out.exc_type == 'ValueError' and 'bound is not' in msg and ref is not None:
       sc = ref.scale
       drops = [k for k in range(1, len(sc)) if sc[k] < sc[k - 1] * (1 - 1e-12)]
@@ -173,6 +176,9 @@ def run_case(spec):
     if not np.allclose(s_, y_all, rtol=1e-10, atol=1e-10 * max(1.0, float(np.abs(y_all).max()))):
       add('sum', 'counterfactual-plus-pointwise', 'counterfactual + pointwise differs from the observed treatment cost')
     return done()
+  if ref.zero_resid or ref.degenerate:
+    counters['zero_variance_inputs'] += 1
+    return done(False)
   kappa = 1.0 + (ref.xbar / max(float(np.std(x_pre)), 1e-300)) ** 2
   rt = 1e-9 + 2e-15 * kappa
   at = rt * (vol + float(np.abs(y_pre).mean()) * len(y_an))
